@@ -101,6 +101,12 @@ CHECKS = [
         "text": "Every class of the space (3 fields; 1-2 validators, 3 in thorough, each with every non-empty dependency subset read directly / through a method / through a property, kind plain / validator(field) / validator(discard=g), raise / yield / yield-with-path style, with and without inheritance) x every datum assigning each field absent / valid / invalid x every pass/fail vector x {identity, camelCase} aliaser: the exact sequence of validators invoked, the sorted error list and the construction verdict must equal the 25-line reference rule; termination is enforced by a watchdog with recursion limit 300.",
         "note": "Order between a class and its bases is the library's documented MRO order. Validators are generated source (the dependency finder needs inspect.getsource).",
     },
+    {
+        "id": "C11", "engine": "E1", "design_ref": "DESIGN.md §5 C11",
+        "technique": "exhaustive enumeration of naming configurations (name x alias x override x class aliaser x dynamic aliaser x route) with an 18-view equality oracle against the documented naming formula",
+        "text": "108 generated classes x 3 dynamic aliasers x {parameter, settings} route: the expected external name dyn(class_aliaser(alias or name)) must be the key consumed by deserialize (every other candidate spelling is rejected with missing/unexpected at the right keys), the key emitted by serialize, the entry of properties / required / dependentRequired of both schemas, the loc of structural, field-validator and yielded get_alias errors (plain, nested, flattened), the GraphQL output field, input field and argument names and the loc of a GraphQL argument error.",
+        "note": "GraphQL views only for names that are valid GraphQL identifiers.",
+    },
 ]
 _PENDING = "check not built yet in this round (planned, see DESIGN.md §5); not claimed until it runs green"
-NOT_APPLICABLE = [{"property_id": f"C{i:02d}", "reason": _PENDING} for i in range(4, 20) if i not in (4, 5, 6, 7, 8, 9, 10, 13, 14, 15, 16, 17, 18)]
+NOT_APPLICABLE = [{"property_id": f"C{i:02d}", "reason": _PENDING} for i in range(4, 20) if i not in (4, 5, 6, 7, 8, 9, 10, 11, 13, 14, 15, 16, 17, 18)]
